@@ -128,8 +128,26 @@ def observe(case):
             # a bounding box of zero extent is C01's business (and crashes
             # the linked list in 1-D/2-D); refresh the caches directly
             raise ValueError('degenerate')
+        late = None
+        counts = [pa.get_number_of_particles() for pa in pas]
+        if case['idx'] % 4 == 1:
+            # an array that is empty when the neighbour search is made and
+            # gets its particles later (an outlet, a callback that fills it)
+            cands = [i for i, n_ in enumerate(counts)
+                     if n_ > 0 and sum(counts) - n_ >= 2]
+            if cands:
+                late = pas[cands[case['idx'] // 4 % len(cands)]]
+                held = late.extract_particles(
+                    np.arange(late.get_number_of_particles()))
+                late.remove_particles(
+                    np.arange(late.get_number_of_particles()))
         nn = LinkedListNNPS(dim=case['dim'], particles=pas)
         nn.update_domain()
+        if late is not None:
+            late.append_parray(held)
+            nn.update_domain()
+            nn.update()
+            info['late_fill'] = True
         info['refresh'] = 'nnps'
     except Exception as e:
         for pa in pas:
@@ -233,6 +251,8 @@ def work(item):
         res['evaluations'] += 1
         c('why_' + why)
         c('refresh_' + info['refresh'].split(' ')[0])
+        if info.get('late_fill'):
+            c('late_filled_array')
         if info['exc']:
             key = 'raises'
             arrays = case['arrays']
@@ -292,7 +312,7 @@ def run(tier):
     m = harness.execute('checks.c19', items, timeout=3600)
     v = common.Verdict(PROP)
     for key in ('why_criteria', 'why_dt_adapt', 'why_no_criterion',
-                'dt_adapt_unused_criteria_apply'):
+                'dt_adapt_unused_criteria_apply', 'late_filled_array'):
         if m.counters.get(key, 0) < 50:
             v.inconclusive_because('only %d cases of kind %s' % (
                 m.counters.get(key, 0), key))
